@@ -523,12 +523,24 @@ def rotation_cases(run, pid, seed, n_kernels, maxlen, all_offsets, archs_x86, ar
     dirs.append(d)
     groups = {}   # base id -> (n, [rot ids])
 
+    def gaps(ls):
+        # empty lines inside the body: the parsed kernel keeps the numbers of the file lines, so the line
+        # numbers of the kernel have holes (every third kernel)
+        if rnd.random() < 0.34 and len(ls) > 1:
+            out = []
+            for l in ls:
+                out.append(l)
+                if rnd.random() < 0.3:
+                    out.append("")
+            return out
+        return ls
+
     def add(kind, isa, where, base_id, lines, meta, offsets):
         n = len(lines)
-        items = [(base_id, "\n".join(lines) + "\n", None, False, {"meta": meta})]
+        items = [(base_id, "\n".join(gaps(lines)) + "\n", None, False, {"meta": meta})]
         for r in offsets:
             rot = lines[r:] + lines[:r]
-            items.append(("%s|r%d" % (base_id, r), "\n".join(rot) + "\n", None, False, {"meta": meta, "r": r}))
+            items.append(("%s|r%d" % (base_id, r), "\n".join(gaps(rot)) + "\n", None, False, {"meta": meta, "r": r}))
         groups[base_id] = (n, offsets)
         tasks.append((kind, isa, where, items, ("lcd",)))
 
